@@ -141,7 +141,10 @@ def _fresh_round(assigns, params, fresh):
 # navigation from a private tree stays inside that private tree
 NAVIGATION = {"children", "walk", "loop_body", "if_body", "else_body",
               "dir_body", "lhs", "rhs", "start_expr", "stop_expr",
-              "step_expr", "arguments", "condition", "operands"}
+              "step_expr", "arguments", "condition", "operands",
+              # a copied / newly created scoping node owns a deep copy of
+              # its table, and the symbols in it are copies
+              "symbol_table", "symbols", "datasymbols"}
 
 
 def _navigates_fresh(expr, fresh):
